@@ -105,6 +105,7 @@ def gen_cases(tier):
         yield ('numrow', h)
     yield ('ecitable',)
     yield ('repeats',)
+    yield ('altreq',)
     yield ('aba',)
     # family 5
     for r in (1, 2) if q else (1, 2, 3):
@@ -235,6 +236,16 @@ def run_case(case, acc):
                     for content in ([reps[a], reps[b], reps[a]], [reps[a], reps[b], reps[b], reps[a]], [reps[a], reps[a], reps[b]]):
                         for kw in ({}, {'micro': False}, {'version': 2, 'error': 'M'}):
                             do_call(content, kw, acc, ('call', content, kw))
+    elif kind == 'altreq':
+        # many small parts with an explicitly requested version just above the automatically fitted one (M4 -> 1, 9 -> 10, 26 -> 27)
+        for k in range(2, 46):
+            content = ['1' if i % 2 == 0 else 'A' for i in range(k)]
+            for kw in ({'version': 1, 'error': 'L'}, {'version': 1, 'error': 'M'}, {'version': 2, 'error': 'H'}):
+                do_call(content, kw, acc, ('call', content, kw))
+        for ver, lvl, ks in ((10, 'H', range(36, 44)), (27, 'H', range(222, 234))):
+            for k in ks:
+                content = ['1' if i % 2 == 0 else 'A' for i in range(k)]
+                do_call(content, {'version': ver, 'error': lvl, 'mask': 0}, acc, ('call', content, {'version': ver, 'error': lvl, 'mask': 0}))
     elif kind == 'repeats':
         # the same (mergeable) part two, three and four times, and a following single call (cached / aliased segments)
         for p_ in PARTS + ['XY', '000', 'AB12', 'ab']:
